@@ -59,7 +59,7 @@ func VH_c06_recvloop() {
 	}
 	wire = append(wire, byte(total>>8), byte(total), bgp.BGP_MSG_UPDATE)
 	wire = append(wire, body...)
-	conn := &vConn{in: wire}
+	conn := newVConn(wire, false)
 
 	f := newFSM(&oc.Global{}, &oc.Neighbor{}, bgp.BGP_FSM_ESTABLISHED, vLogger())
 	f.isEBGP, f.isTreatAsWithdraw = ebgp, revised
